@@ -928,3 +928,100 @@ FAMILIES = {
     'FunctionBuilder.remove_arg': fam_fb('remove_arg'),
     'FunctionBuilder.update_wrapper_core': fam_fb('update_wrapper_core'),
 }
+
+
+# ---------------------------------------------------------------------------------------------- subset boundary
+# Each snippet violates ONE side condition of a rewrite of this module (or uses a neighbouring construct that has no
+# rewrite): the translator must refuse it (`Unsupported`), never emit Lean for it.
+
+_RCLS = {'name': 'B', 'lean_name': 'B', 'tparams': ['κ', 'ν'], 'deceq': ['κ'], 'inhabited': ['ν'],
+         'state': {'xs': 'List κ', 'ys': 'List κ', 'd': 'Dict κ ν', 'dfl': 'Option (List ν)', 'exc_sub': 'Int'},
+         'ext': 'py2lean_c13', 'user_exc': {'Miss': {'base': 'ValueError', 'tag': 1}}}
+_RHEAD = 'class Miss(ValueError):\n    pass\n\nclass B:\n'
+_RHEAD_INIT = 'class Miss(ValueError):\n    def __init__(self, m):\n        super().__init__(m.upper())\n\nclass B:\n'
+_RHEAD_KEY = 'class Miss(KeyError):\n    pass\n\nclass B:\n'
+
+REJECT = [
+    # (name, head, method source, params, result)
+    ('alias of an attribute that is rebound', _RHEAD,
+     '    def f(self, k):\n        a = self.xs\n        self.xs = []\n        a.remove(k)\n', {'k': 'κ'}, 'None'),
+    ('alias bound twice', _RHEAD,
+     '    def f(self, k):\n        a = self.xs\n        a = self.ys\n        a.remove(k)\n', {'k': 'κ'}, 'None'),
+    ('in-place method on a parameter', _RHEAD,
+     '    def f(self, k, other):\n        other.pop(k, None)\n        return len(other)\n',
+     {'k': 'κ', 'other': 'Dict κ ν'}, 'Int'),
+    ('in-place method on a local that may alias the state', _RHEAD,
+     '    def f(self, k):\n        a = self.d if k in self.xs else {}\n        a.pop(k, None)\n        return len(a)\n',
+     {'k': 'κ'}, 'Int'),
+    ('one-shot iterator stored in a variable', _RHEAD,
+     '    def f(self, k):\n        r = reversed(self.xs)\n        return list(r)\n', {'k': 'κ'}, 'List κ'),
+    ('reversed() of a zip object (TypeError in Python)', _RHEAD,
+     '    def f(self, k):\n        return list(reversed(zip(self.xs, self.ys)))\n', {'k': 'κ'}, 'List (κ × κ)'),
+    ('exception class with an __init__', _RHEAD_INIT,
+     '    def f(self, k):\n        raise Miss("x")\n', {'k': 'κ'}, 'None'),
+    ('exception class with another base than the spec says', _RHEAD_KEY,
+     '    def f(self, k):\n        raise Miss("x")\n', {'k': 'κ'}, 'None'),
+    ('exception message that can raise', _RHEAD,
+     '    def f(self, k):\n        raise Miss("%d" % k)\n', {'k': 'κ'}, 'None'),
+    ('exception message that calls something', _RHEAD,
+     '    def f(self, k):\n        raise Miss(", ".join(self.xs))\n', {'k': 'κ'}, 'None'),
+    ('handler for two builtin classes', _RHEAD,
+     '    def f(self, k):\n        try:\n            self.xs.remove(k)\n        except (KeyError, ValueError):\n'
+     '            return\n', {'k': 'κ'}, 'None'),
+    ('bare raise in a handler that may have caught a user-defined exception', _RHEAD,
+     '    def f(self, k):\n        try:\n            self.xs.remove(k)\n        except ValueError:\n            raise\n',
+     {'k': 'κ'}, 'None'),
+    ('two handlers of one try for the same builtin class', _RHEAD,
+     '    def f(self, k):\n        try:\n            self.xs.remove(k)\n        except Miss:\n            return\n'
+     '        except ValueError:\n            return\n', {'k': 'κ'}, 'None'),
+    ('the reserved attribute name', _RHEAD,
+     '    def f(self, k):\n        self.exc_sub = 5\n', {'k': 'κ'}, 'None'),
+    ('exception object used besides being raised', _RHEAD,
+     '    def f(self, k):\n        e = Miss("x")\n        if k in self.xs:\n            raise e\n        return e\n',
+     {'k': 'κ'}, 'None'),
+    ('`or` with a non-empty display', _RHEAD,
+     '    def f(self, k):\n        return len(self.dfl or [k])\n', {'k': 'ν'}, 'Int'),
+    ('guarded lookup in another dict than the guard tests', _RHEAD,
+     '    def f(self, k, o):\n        return [o[a] for a in self.xs if a in self.d]\n', {'k': 'κ', 'o': 'Dict κ ν'},
+     'List ν'),
+    ('getattr of an undeclared attribute', _RHEAD,
+     '    def f(self, k):\n        return len(getattr(self, "zs", ()))\n', {'k': 'κ'}, 'Int'),
+    ('dict(...) with keyword arguments', _RHEAD,
+     '    def f(self, k):\n        return dict(self.d, a=k)\n', {'k': 'ν'}, 'Dict κ ν'),
+    ('insert on a tuple-valued (Option) attribute', _RHEAD,
+     '    def f(self, k):\n        self.dfl.insert(0, k)\n', {'k': 'ν'}, 'None'),
+]
+
+
+def reject_tests(verbose=True):
+    bad = []
+    for name, head, msrc, params, result in REJECT:
+        cls = dict(_RCLS)
+        spec = {'module': 'x', 'qualname': 'B.f', 'lean_name': 'B.f', 'params': params, 'kind': 'function',
+                'result': result, 'tie_theorem': '-', 'cls': cls, 'method': True, 'raises': True, 'py': 'f'}
+        cls['methods'] = [spec]
+        tree = ast.parse(head + msrc)
+        try:
+            fdef = py2lean._find_function(tree, 'B.f')
+            text = py2lean.FnTranslator(fdef, spec, {}, tree).emit()
+            bad.append((name, text))
+        except (py2lean.Unsupported, py2lean._Unknown):
+            pass
+    # a region whose object is bound twice / whose result is not bound inside it
+    for name, src in [('region object bound twice',
+                       'def g(a):\n    fb = a\n    fb = a\n    r = fb.xs\n    return r\n'),
+                      ('region result not bound', 'def g(a):\n    fb = a\n    q = fb.xs\n    return q\n')]:
+        spec = {'module': 'x', 'qualname': 'g', 'lean_name': 'B.g', 'params': {}, 'kind': 'function', 'result': 'List κ',
+                'tie_theorem': '-', 'cls': dict(_RCLS, methods=[]), 'method': True, 'raises': True, 'py': 'g',
+                'region': {'object': 'fb', 'result': 'r'}}
+        tree = ast.parse(_RHEAD + '    pass\n\n' + src)
+        try:
+            text = py2lean.FnTranslator(py2lean._find_function(tree, 'g'), spec, {}, tree).emit()
+            bad.append((name, text))
+        except (py2lean.Unsupported, py2lean._Unknown):
+            pass
+    if verbose:
+        print('py2lean_c13 subset boundary: %d/%d snippets refused' % (len(REJECT) + 2 - len(bad), len(REJECT) + 2))
+        for name, text in bad:
+            print('ACCEPTED (should be refused): %s\n%s' % (name, text))
+    return len(bad)
